@@ -19,6 +19,47 @@ type hCmd struct {
 	Arg  string `json:"arg,omitempty"`  // address local part / greeting name / "cancel"|"resp"
 	Last bool   `json:"last,omitempty"` // BDAT ... LAST
 	Body Octets `json:"body,omitempty"` // DATA: wire octets before the end marker; BDAT: payload; garbage: the line
+	// Case: spelling of the keywords of the line (commands and parameter
+	// keywords are case-insensitive): 0 as written, 1 lower case, 2 mixed
+	Case int `json:"case,omitempty"`
+}
+
+// respell changes the case of the keywords of a command line, leaving
+// addresses, names, sizes and base64 alone.
+func respell(line string, mode int) string {
+	if mode == 0 {
+		return line
+	}
+	f := func(s string) string {
+		if mode == 1 {
+			return strings.ToLower(s)
+		}
+		var sb strings.Builder
+		for i, r := range s {
+			if i%2 == 0 {
+				sb.WriteString(strings.ToLower(string(r)))
+			} else {
+				sb.WriteString(strings.ToUpper(string(r)))
+			}
+		}
+		return sb.String()
+	}
+	kw := map[string]bool{"EHLO": true, "LHLO": true, "HELO": true, "MAIL": true, "RCPT": true, "DATA": true, "BDAT": true, "LAST": true, "RSET": true, "NOOP": true,
+		"VRFY": true, "HELP": true, "AUTH": true, "PLAIN": true, "STARTTLS": true, "QUIT": true}
+	toks := strings.Split(line, " ")
+	for i, tk := range toks {
+		switch {
+		case kw[tk]:
+			toks[i] = f(tk)
+		case strings.HasPrefix(tk, "FROM:"):
+			toks[i] = f("FROM:") + tk[5:]
+		case strings.HasPrefix(tk, "TO:"):
+			toks[i] = f("TO:") + tk[3:]
+		case strings.HasPrefix(tk, "BODY=") || strings.HasPrefix(tk, "SIZE="):
+			toks[i] = f(tk)
+		}
+	}
+	return strings.Join(toks, " ")
 }
 
 type hCase struct {
@@ -309,6 +350,9 @@ func genHistory(t *rapid.T, maxLen int, garbageCtl bool) hCase {
 		case "garbage":
 			cmd.Body = genGarbageLine(t, garbageCtl)
 		}
+		if rapid.IntRange(0, 5).Draw(t, "respell") == 0 {
+			cmd.Case = rapid.IntRange(1, 2).Draw(t, "case")
+		}
 		c.Cmds = append(c.Cmds, cmd)
 	}
 	return c
@@ -426,6 +470,12 @@ func runLockstep(c hCase) hRun {
 	for _, cmd := range c.Cmds {
 		sr := stepRec{Cmd: cmd}
 		line, payload := cmd.line(c.Cfg.LMTP)
+		switch cmd.Op {
+		case "garbage", "unknown", "empty", "mail-bad", "rcpt-bad", "bdat-badlast", "bdat-badsize", "bdat-3args", "data-arg":
+			// (what these lines are refused for is their spelling)
+		default:
+			line = respell(line, cmd.Case)
+		}
 		first := append([]byte(line+"\r\n"), payload...)
 		sr.Sent = append(sr.Sent, first)
 		w.Send(first)
@@ -694,6 +744,9 @@ func (m *monitor) step(s stepRec) string {
 	}
 	if m.lost {
 		m.unspecified++
+		if cmd.Op == "unknown" || cmd.Op == "empty" || cmd.Op == "garbage" {
+			m.errors++ // these count against the connection whatever else is open
+		}
 		if (cmd.Op == "greet" || (cmd.Op == "helo" && !m.cfg.LMTP)) && len(s.Replies) == 1 && s.Replies[0].Code == 250 {
 			for _, ns := range begins(s.Events, "NewSession") {
 				if ns.Hostname != cmd.Arg || ns.TLS != m.tls {
